@@ -683,6 +683,8 @@ case('C20', "C20-seed7", "mutant", 'seeded (round 4): Robustness feature in pkg/
      patch="seeded/C20-7/patch.diff", expect=[('C20.R2', 'Extract', "os.MkdirAll path")])
 case('C20', "C20-seed8", "mutant", 'seeded (round 4): Behaviour fix in `regctl artifact get --strip-dirs` (cmd/regctl/artifact.go, runArtifactGet): for a directory artifact (title',
      patch="seeded/C20-8/patch.diff", expect=[('C20.R3', 'runArtifactGet', "os.Stat path")])
+case('C13', "C13-seed5", "mutant", 'seeded (round 3): layer-add decompresses after the tee that feeds the diff-id digester',
+     patch="seeded/C13-5/patch.diff", expect=[('C13.R8', 'WithLayerAddTar', "input of archive.Compress")])
 
 def main():
     bad = 0
